@@ -19,6 +19,16 @@ let cmd_prover trace prog lim =
   field_of_mresult r ^ "|" ^ string_of_int (List.length apps) ^ "|" ^ fnv recs
   ^ (if trace then "|" ^ recs else "")
 
+(* proverrules|prog|lim -> <n>|<hash>|<slot sig lex rex rule;...>: the stored rules at the end of the run *)
+let cmd_proverrules prog lim =
+  let rm = unwrap (run_prover_rules (comp_of_text prog) (n_of_string lim)) in
+  let recs = List.concat_map (fun ((slot : slot), rs) ->
+      List.map (fun (((g : signature), (lex, rex)), (r : rule)) ->
+          String.concat " " [ string_of_n (fst slot) ^ "," ^ string_of_n (snd slot); field_of_sig g;
+                              b2s lex ^ b2s rex; field_of_rule r ]) rs) rm in
+  let txt = String.concat ";" recs in
+  string_of_int (List.length recs) ^ "|" ^ fnv txt ^ "|" ^ txt
+
 (* Diagnostic: at which site does the model panic?  Replays the main loop with
    the extracted [prover_body] and classifies the Panic by re-evaluating the parts
    of that iteration; the labels are the Rust source locations of the
@@ -142,6 +152,7 @@ let dispatch (fields : string list) : string option =
   | ["prover"; prog; lim] -> Some (cmd_prover false prog lim)
   | ["provertrace"; prog; lim] -> Some (cmd_prover true prog lim)
   | ["proverwhy"; prog; lim] -> Some (cmd_proverwhy prog lim)
+  | ["proverrules"; prog; lim] -> Some (cmd_proverrules prog lim)
   | ["symrule"; prog; q; before; rule; cycles] -> Some (cmd_symrule prog q before rule cycles "all" "64")
   | ["symrule"; prog; q; before; rule; cycles; mode] -> Some (cmd_symrule prog q before rule cycles mode "64")
   | ["symrule"; prog; q; before; rule; cycles; mode; restarts] ->
